@@ -7,6 +7,8 @@ from __future__ import annotations
 from hypothesis import strategies as st
 
 HELPERS = '''
+from collections.abc import Callable
+
 @guppy.struct
 class P:
     a: int
@@ -54,6 +56,21 @@ def adv(sel: array[int, 1], k: int, j: int, v: int) -> int:
     result("e", k)
     sel[0] = j
     return v
+
+@guppy
+def inc(v: int) -> int:
+    return v + 1
+
+@guppy
+def dbl(v: int) -> int:
+    return v * 2
+
+@guppy
+def pick(k: int, b: bool) -> Callable[[int], int]:
+    result("e", k)
+    if b:
+        return inc
+    return dbl
 
 @guppy
 def boom(k: int) -> int:
@@ -171,7 +188,16 @@ class G:
         if r == 15 and self.allow_boom and not self.boomed and self.d(st.integers(0, 2)) == 0:
             self.boomed = True
             self.leaves += 1
+            if self.d(st.booleans()):
+                # an implicit run-time check that fails: reading xs (length 3) at an index >= 3
+                return ("oob", self.nk(), self.d(st.integers(3, 5)))
             return ("boom", self.nk())
+        if r == 17:
+            # a call through a function value computed by an effectful callee expression: the callee
+            # runs before the argument (the argument is generated without lifted nodes)
+            k_ = self.nk()
+            self.leaves += 1
+            return ("hof", k_, self.d(st.booleans()), self.int_tree(D, nl=True))
         self.leaves += 1
         return ("ti", self.nk(), self.d(st.integers(-3, 5)))
 
@@ -295,6 +321,10 @@ def render(t):
         return f"({t[1]} := {render(t[2])})"
     if k == "boom":
         return f"boom({t[1]})"
+    if k == "oob":
+        return f"xs[ti({t[1]}, {t[2]})]"
+    if k == "hof":
+        return f"pick({t[1]}, {t[2]})({render(t[3])})"
     if k == "adv":
         return f"adv(sel, {t[1]}, {t[2]}, {t[3]})" if t[3] >= 0 else f"adv(sel, {t[1]}, {t[2]}, ({t[3]}))"
     if k == "mz":
@@ -316,8 +346,10 @@ def render(t):
 def children(t):
     """operands in Python evaluation order"""
     k = t[0]
-    if k in ("ti", "tb", "tf", "lit", "flit", "blit", "boom", "mz", "adv"):
+    if k in ("ti", "tb", "tf", "lit", "flit", "blit", "boom", "mz", "adv", "oob"):
         return []
+    if k == "hof":
+        return [t[3]]
     if k in ("bin", "fbin", "cmp", "fcmp"):
         return [t[2], t[3]]
     if k in ("neg", "not", "sub"):
@@ -344,7 +376,7 @@ def children(t):
 
 
 def has_effect(t):
-    if t[0] in ("ti", "tb", "tf", "boom", "mz", "g2", "g3", "adv"):
+    if t[0] in ("ti", "tb", "tf", "boom", "mz", "g2", "g3", "adv", "oob", "hof"):
         return True
     return any(has_effect(c) for c in children(t))
 
@@ -356,13 +388,13 @@ def has_lifted(t):
 
 
 def count_effect_leaves(t):
-    n = 1 if t[0] in ("ti", "tb", "tf", "boom", "mz", "adv") else 0
+    n = 1 if t[0] in ("ti", "tb", "tf", "boom", "mz", "adv", "oob", "hof") else 0
     return n + sum(count_effect_leaves(c) for c in children(t))
 
 
 def under_shortcircuit(t, inside=False):
     """is some effectful leaf under a short-circuit / conditional / chained node?"""
-    if t[0] in ("ti", "tb", "tf", "boom", "mz", "adv"):
+    if t[0] in ("ti", "tb", "tf", "boom", "mz", "adv", "oob"):
         return inside
     ins = inside or t[0] in ("ifexp", "and", "or", "chain")
     return any(under_shortcircuit(c, ins) for c in children(t))
@@ -383,6 +415,8 @@ def issues(t):
                 out.add("chain_middle_effect")
     if k == "sub2" and has_effect(t[1]) and has_effect(t[2]):
         out.add("nested_subscript_order")
+    if k == "hof" and has_lifted(t[3]):
+        out.add("effect_before_lifted")  # the callee's effect precedes a lifted node in the argument
     if k not in ("ifexp", "and", "or"):
         # operands evaluated in sequence in the same block
         for i, a in enumerate(cs):
@@ -549,7 +583,7 @@ def _one(draw, allow_known=False, max_depth=4, prefix="", allow_boom=True, kinds
         for t in ts:
             max_leafcount = max(max_leafcount, sum(count_effect_leaves(x) for x in ts))
             sc = sc or under_shortcircuit(t)
-            for name in ("ifexp", "and", "or", "chain", "walrus", "boom", "mz", "sub", "field", "tupidx", "g2", "g3", "adv"):
+            for name in ("ifexp", "and", "or", "chain", "walrus", "boom", "mz", "sub", "field", "tupidx", "g2", "g3", "adv", "oob", "hof"):
                 if _contains(t, name):
                     labels.add("has:" + name)
     body = "\n".join("    " + l for l in lines)
